@@ -12,7 +12,7 @@ THEOREMS = {"SmVerif.Props.C11": [
 TRUSTED = BASE_TRUST + ["model: lean/SmVerif/Model/Vlq.lean mirrors parse_vlq_segment_into / encode_vlq (vlq.rs) with i64 truncation at the 13th digit"]
 ASSUMPTIONS = ["i64 arithmetic of rustc/LLVM as documented (wrapping shl, arithmetic shr)", "encode_vlq is only defined for |n| < 2^62 (it loops forever beyond; outside the property)"]
 RULE = ("vlq.dec: every base64 string of length <= 2 plus a 64x22x13 sample of length 3 (quick) / every string of length <= 4 (thorough; <= 3 when the quick command widens), all 256 single bytes, random longer strings incl. 13/14-digit runs and foreign bytes; "
-        "vlq.enc: all 2^k, 2^k+-1 up to 2^62, random lists; vlq.range: checksummed exhaustive round trip over an integer window. "
+        "vlq.enc: all 2^k, 2^k+-1 up to 2^62, random lists; vlq.range: checksummed exhaustive round trip over an integer window (+-2^22 quick, +-2^24 widened, +-2^29 thorough). "
         "non-trivial = the model result is ok with a non-zero value, or an error; distinct = distinct case line")
 EXHAUSTIVE = {"quick": False, "thorough": True}
 LIMIT_MS = 600000
@@ -111,9 +111,11 @@ def generate(tier, rng, hist):
     else:
         # widened (a quick command on changed code): +-2^24 keeps the run within a couple of minutes; digit-count
         # boundaries beyond it are covered by the explicit 2^k, 2^k+-1 cases above
-        W = (1 << 24) if widened else (1 << 32)
-        step = (1 << 20) if widened else (1 << 25)
+        # thorough: +-2^29 (about a quarter of an hour on 16 cores); the whole u32 difference range (+-2^32) is the
+        # theorem c11_u32_diffs, the window only supports the model-vs-code tie and took over two hours at +-2^32
+        W = (1 << 24) if widened else (1 << 29)
+        step = (1 << 20) if widened else (1 << 23)
         for lo in range(-W, W, step):
             out.append("vlq.range %d %d" % (lo, min(lo + step, W)))
-        bump(hist, "range_pm_2^32", 1)
+        bump(hist, "range_pm_2^24" if widened else "range_pm_2^29", 1)
     return out
